@@ -698,7 +698,7 @@ impl Engine {
             }
             sec.merge(o.stats);
         }
-        let complete = first_fail.is_none() && sec.evaluations == total;
+        let complete = first_fail.is_none() && sec.cases == total;
         self.finish_section(section, sec, t0, exhaustive && complete);
         if let Some((i, fl)) = first_fail {
             let case = describe(i);
